@@ -44,6 +44,10 @@ def shards(tier, seed):
     # array classes GIVEN A NAME by subclassing (class Line(xo.Ref[Elem][:]): pass): the copy rules are those of the base
     U = universe
     out.append(("named-subclass", [U.A2_REFARR, U.A2_UREF, xt.Arr(xt.Ref(U.S_S), (None,)), xt.St(U.A2_REFARR, xt.STR), U.A_DD, U.A2_STRUCT, xt.Arr(xt.Ref(U.A_DS), (2,))]))
+    # structs declared from Field objects taken over from a donor struct in which the same fields lie elsewhere
+    St, Sc, STR, Ref, URef = xt.St, xt.Sc, xt.STR, xt.Ref, xt.URef
+    out.append(("shared-fields", [St(Ref(U.S_S), STR, U.A_DS), St(Sc("i8"), URef(U.S_S, U.S_D2), STR, Sc("f64")), St(U.A2_REFARR, STR, Sc("i16")), St(STR, Ref(U.S_D1), STR), U.S2_REF, U.S2_UREF,
+                                  St(Ref(U.S_S), Sc("i64"), Sc("f64")), xt.Arr(St(Ref(U.S_S), Sc("i64")), (2,))]))
     # struct classes whose reference fields are DECLARED with a non-null default (list / (name, data) / factory)
     out.append(("declared-defaults", "default"))
     out.append(("declared-defaults", "factory"))
@@ -343,8 +347,8 @@ def run_shard(types, tier, seed):
         run_declared_defaults(types[1], tier, res)
         res.nontrivial = res.states
         return res
-    if isinstance(types, tuple) and types[0] == "named-subclass":
-        xt.DECL[0] = "named-subclass"  # this process only
+    if isinstance(types, tuple) and types[0] in ("named-subclass", "shared-fields"):
+        xt.DECL[0] = types[0]  # this process only
         types = types[1]
     for t in types:
         modes = VMODES if xt.has_refs(t) else ["ramp"] + (["extreme"] if tier == "thorough" else [])
